@@ -214,12 +214,17 @@ claim("C02", "proof",
       "outgoing flux minus the neighbour's flux through the same interface (opposite direction slot on grids, in-constant on "
       "graphs), Compute_dxdt stores at every (cell, species) 0 if chemostated, else sum_r sto[s,r] rate(cell,r) - sum over existing "
       "interfaces of that difference (Skolem pointwise invariants with ghost partial sums, quantified invariant for the local rate "
-      "vector), Apply_dxdt adds dxdt x dt entry-wise. Bounded stand-ins on the engine built from the working tree: pairing of "
-      "directed interfaces (grids <= 4x4x3 x 8 boundary combinations; 6 multigraphs with self loops, parallel edges, zero-diffusivity "
-      "environment, heterogeneous volumes: slots point at each other and carry swapped in/out constants, bit-identical) and "
-      "2000-step conservation runs of A <-> B with diffusion for the three engines.",
-      "The lemmas L-sum, L-lin, L-pairing (algebra of finite sums) are stated in DESIGN.md, not machine-checked. The pairing is a "
-      "bounded stand-in (not proved for all shapes/graphs). 'Every recorded sample' follows with C09 (a record is a copy of the "
+      "vector), Apply_dxdt adds dxdt x dt entry-wise. Pairing of the directed interfaces: on grids proved for all shapes and "
+      "boundary conditions (GetNeighborIndex of the neighbour's coordinates in the opposite direction is the cell, with "
+      "quotient/remainder uniqueness lemma instances; BuildMeshNeighbors hands over the coordinates whose index is the cell); on "
+      "graphs one iteration of SetNeighbors appends exactly the two mate slots (same surface and distance) and leaves the rest "
+      "unchanged. Bounded stand-ins on the engine built from the working tree: pairing incl. the in/out constants (grids <= 4x4x3 "
+      "x 8 boundary combinations; 6 multigraphs with self loops, parallel edges, zero-diffusivity environment, heterogeneous "
+      "volumes) and 2000-step conservation runs of A <-> B with diffusion for the three engines. The Python seam's marshalling "
+      "cases (C04) are included.",
+      "The lemmas L-sum, L-lin, L-pairing, L-mates (algebra of finite sums, induction over the edge list) are stated in DESIGN.md, "
+      "not machine-checked. Equality of the swapped in/out constants of two mate slots follows from the Build_mesh_kd contract "
+      "(C01, thorough tier) and the symmetry of the interface diffusivity; it is checked concretely (bit-identical) in the battery. 'Every recorded sample' follows with C09 (a record is a copy of the "
       "state). Deterministic engine: to rounding (A1 treats doubles as reals).",
       "deductive: symbolic interpretation of clang AST with loop invariants, ghost sums and callee contracts + SMT; bounded stand-in for interface pairing; sanitizer replay battery",
       "DESIGN.md 3/C02")
